@@ -124,7 +124,7 @@ def atom(rng, hashable=False, orderable=None):
         return rng.choice(["'a'", "'b'", "''", "'é'", "'a b'"]), {"str"}
     opts = [("0", "int"), ("-7", "int"), ("10**30", "int"), ("True", "bool"), ("None", "none"), ("1.5", "float"), ("-0.0", "float"),
             ("1e100", "float"), ("'s'", "str"), ("'it''s'", "str"), ("'multi\\nline\\ntext'", "str"), ("'  pad  '", "str"),
-            ("b'by\\x00te'", "bytes"), ("Color.RED", "enum"), ("Perm.R | Perm.X", "flag"), ("Perm.W", "flag"), ("Plain", "type"), ("int", "type"),
+            ("b'by\\x00te'", "bytes"), ("Color.RED", "enum"), ("Perm.R | Perm.X", "flag"), ("Perm.W", "flag"), ("Perm(0)", "flag"), ("Perm.R & Perm.W", "flag"), ("Plain", "type"), ("int", "type"),
             ("NoRepr(3)", "hasrepr"), ("NT(1)", "namedtuple"), ("NT(2, 'z')", "namedtuple"), ("NT2(1, 2)", "namedtuple"),
             ("DC(1)", "dataclass"), ("DC(2, 'y')", "dataclass"), ("2+3j", "complex"), ("-1j", "complex"), ("float('inf')", "inf"), ("-float('inf')", "inf"),
             ("Outer.Tok(1)", "nested_hasrepr"), ("Outer.Col.B", "nested_enum"), ("Outer.Rec(1)", "nested_dataclass"),
